@@ -544,6 +544,36 @@ def gen_seg_reuse(seed, npipes, tags):
     return out
 
 
+def gen_seg_pair(seed, npipes, tags):
+    """Segmentation with several connections at once: two or three clients each send a request; in the segmented twins each
+    first sends a part, and the rests follow together, so that several split requests are completed in one poller round."""
+    rng = random.Random("segpair/%s" % seed)
+    slots = ["A", "A2", "B", "C"]
+    out = []
+    for p in range(npipes):
+        cs = ["c1", "c2", "c3"][:rng.choice([2, 2, 3])]
+        reqs = {}
+        for c in cs:
+            k = rng.choice(["get", "set", "mget", "set"])
+            if k in ("get", "set"):
+                reqs[c] = {"k": k, "slots": [rng.choice(slots)], "dups": [-1]}
+            else:
+                sl, du = gen_keylist(rng, 3, slots)
+                reqs[c] = {"k": k, "slots": sl, "dups": du}
+        lens = {c: len(concrete(tags, c, 1, reqs[c])) for c in cs}
+        for v in range(4):
+            if v == 0:
+                steps = [{"stim": [{"op": "send", "c": c, "reqs": [reqs[c]]} for c in cs]}, {"stim": [], "settle": True}]
+            else:
+                order = cs[:]
+                rng.shuffle(order)
+                steps = [{"stim": [{"op": "send", "c": c, "reqs": [reqs[c]], "kind": "hold", "cuts": [rng.randint(2, lens[c] - 2)]} for c in cs]}, {"stim": []},
+                         {"stim": [{"op": "sendrest", "c": c} for c in order]}, {"stim": [], "settle": True}]
+            steps += drain_steps(2, 6)
+            out.append(_norm({"id": "segpair-%s-%d-%d" % (seed, p, v), "role": "base" if v == 0 else "seg", "steps": json.loads(json.dumps(steps))}))
+    return out
+
+
 def gen_seg(seed, npipes, cuts_per, tags):
     """Groups of 1 + cuts_per scenarios: the unsegmented pipeline (role base) and segmented twins (role seg)."""
     rng = random.Random("seg/%s" % seed)
